@@ -30,6 +30,9 @@ def failure_site(f):
     d = re.sub(r'packet \d+ \(pts -?\d+\)[:,]?', '', d)
     d = re.sub(r'display position \d+ \(pts -?\d+\)[:,]?', '', d)
     d = re.sub(r'\(decision \d+\)', '', d)
+    if f['name'] in ('stream_header_api_differs', 'seq_header_differs'):
+        return f['name']
+    d = re.sub(r'\b[0-9a-f]{12,}\b', 'H', d)
     return f['name'] + ':' + norm(d.strip(), 70)
 
 def single_violations(case, res, variant):
@@ -74,18 +77,24 @@ def c03_oracle(case, res, variant):
     g = case.get('_gen') or {}
     sends = [o for o in case['program'] if o['op'] == 'send' and not o.get('null')]
     drained = any(o['op'] == 'drain' for o in case['program'])
+    n = len(sends)
+    if n == 0 and any(o['op'] == 'eos' for o in case['program']):
+        pk = res['packets']
+        if not (len(pk) == 0 or (len(pk) == 1 and pk[0]['size'] == 0)):
+            return [Violation('C03', 'ORACLE', 'packet_count', 'empty stream (EOS only) produced %d packets' % len(pk), case, variant)]
+        return []
     if not drained:
         return []
-    n = len(sends)
     exp_pts = [o.get('pts', o.get('i', k)) for k, o in enumerate(sends)]
     pk = res['packets']; V = []
     def bad(site, detail):
         V.append(Violation('C03', 'ORACLE', site, detail, case, variant))
     if len(pk) != n and not (n == 0 and len(pk) == 1 and pk[0]['size'] == 0):
         bad('packet_count', 'submitted %d pictures, received %d packets' % (n, len(pk)))
+    increasing = all(b > a for a, b in zip(exp_pts, exp_pts[1:]))
     for k, p in enumerate(pk[:n]):
         if p['pts'] != exp_pts[k]:
-            bad('packet_pts_order', 'packet %d carries pts %d, expected %d (submission order)' % (k, p['pts'], exp_pts[k])); break
+            bad('packet_pts_order' if increasing else 'packet_pts_order_nonmonotonic_input', 'packet %d carries pts %d, expected %d (submission order)%s' % (k, p['pts'], exp_pts[k], '' if increasing else '; submitted pts are not strictly increasing')); break
     for k, p in enumerate(pk[:n]):
         if p['dts'] != p['pts']:
             bad('dts_ne_pts', 'packet %d: dts %d != pts %d' % (k, p['dts'], p['pts'])); break
@@ -98,9 +107,11 @@ def c03_oracle(case, res, variant):
         bad('eos_flag', 'EOS flag on packets %s of %d' % (eos, len(pk)))
     if case['cfg'].get('recon_enabled') and not any(o['op'] == 'drain' and o.get('no_recon') for o in case['program']):
         rc = res.get('recons', [])
+        # "one per display position": a recon buffer is identified by its display position, which the library reports either as the
+        # submitted pts or as the picture's index in submission order
         rp = sorted(r['pts'] for r in rc)
-        if rp != sorted(exp_pts):
-            bad('recon_set', 'recon pts delivered %s, submitted %s' % (rp[:40], sorted(exp_pts)[:40]))
+        if rp != sorted(exp_pts) and rp != list(range(n)):
+            bad('recon_set', 'recon positions delivered %s, submitted %d pictures with pts %s' % (rp[:40], n, sorted(exp_pts)[:40]))
         ne = sum(1 for r in rc if r['flags'] & 1)
         if rc and ne != 1:
             bad('recon_eos', '%d recon buffers carry EOS' % ne)
@@ -123,16 +134,20 @@ def c18_oracle(case, res, variant):
     cfg = case['cfg']; V = []
     rc = cfg.get('rate_control_mode', 0); scaling = cfg.get('enable_qp_scaling_flag', 1)
     lo, hi = Q2QI[cfg.get('min_qp_allowed', 1 if rc else 0) if rc else 0], Q2QI[cfg.get('max_qp_allowed', 63)]
-    fixed = (rc == 0 and scaling == 0)
+    # In this version the only configuration without adaptive QP scaling is use_fixed_qindex_offsets=1 (copy_api_from_app hard-codes
+    # enable_qp_scaling_flag=1 otherwise): every frame then uses qindex(qp) + one of the configured offsets, clipped to the bounds
+    # (qp 1..63 in fixed-QP mode: lossless coding is not supported).
+    fixed = (rc == 0 and cfg.get('use_fixed_qindex_offsets') == 1)
     for pi, fl in enumerate(res['frames']):
         for f in fl:
             if f['se']:
                 continue
             q = f['q']
-            if fixed and not cfg.get('use_fixed_qindex_offsets'):
-                want = Q2QI[cfg.get('qp', 50)]
-                if q != want:
-                    V.append(Violation('C18', 'ORACLE', 'fixed_qp', 'packet %d: base_q_idx %d, fixed QP %d maps to %d' % (pi, q, cfg.get('qp', 50), want), case, variant)); return V
+            if fixed:
+                offs = list(cfg.get('qindex_offsets', [0] * 6)) + [0] * 6
+                allowed = set(min(max(Q2QI[cfg.get('qp', 50)] + o, Q2QI[1]), Q2QI[63]) for o in offs[:6] + [cfg.get('key_frame_qindex_offset', 0)])
+                if q not in allowed:
+                    V.append(Violation('C18', 'ORACLE', 'fixed_qp', 'packet %d: base_q_idx %d, fixed QP %d with configured offsets allows %s' % (pi, q, cfg.get('qp', 50), sorted(allowed)), case, variant)); return V
             elif rc != 0:
                 if q < lo or q > hi:
                     V.append(Violation('C18', 'ORACLE', 'rc_bounds', 'packet %d: base_q_idx %d outside [%d,%d] (min_qp %s max_qp %s, rc %d)' % (pi, q, lo, hi, cfg.get('min_qp_allowed'), cfg.get('max_qp_allowed'), rc), case, variant)); return V
